@@ -113,6 +113,32 @@ def scopeExit (ord : DropOrder) (checksPanicking : Bool) (order : List Field) (s
   exitSteps ord checksPanicking
     { ms := st.ms, panicking := st.panicked, newPanics := 0, abort := false, lockHeld := true, verifs := st.verifs } order
 
+/-- The statements of `Drop::drop` itself, in order.  A panic raised by one of them (a verifier
+    with an unmet expectation dropped inside the body) unwinds out of `drop`: the remaining
+    statements are skipped, and what they would have let go of is left to the field glue. -/
+def bodySteps (ord : DropOrder) (checksPanicking : Bool) : ExitState → List Field → ExitState
+  | e, [] => e
+  | e, f :: fs =>
+    if e.abort then e else
+    match f with
+    | Field.guards => bodySteps ord checksPanicking { e with ms := restoreAll ord e.ms } fs
+    | Field.verifiers =>
+      let e' := dropVerifs checksPanicking e e.verifs
+      if e'.newPanics > e.newPanics then { e' with verifs := [] }
+      else bodySteps ord checksPanicking { e' with verifs := [] } fs
+    | Field.lock => bodySteps ord checksPanicking { e with lockHeld := false } fs
+    | Field.other => bodySteps ord checksPanicking e fs
+    | Field.unknown => bodySteps ord checksPanicking e fs
+
+/-- Letting go of the injector in two phases, as the language prescribes: the `Drop::drop` body
+    (guards restored in the order the body implements), then the fields in declaration order,
+    where a `Vec<PatchGuard>` that still has elements drops them front to back (oldest first). -/
+def scopeExit2 (bodyOrd : DropOrder) (checksPanicking : Bool) (body fields : List Field) (st : LifeState) : ExitState :=
+  exitSteps DropOrder.oldestFirst checksPanicking
+    (bodySteps bodyOrd checksPanicking
+      { ms := st.ms, panicking := st.panicked, newPanics := 0, abort := false, lockHeld := true, verifs := st.verifs } body)
+    fields
+
 /-- the successful installations of a body, in order, up to the first panic -/
 def reqsOf (mode : Mode) : LifeState → List Op → List Req
   | _, [] => []
